@@ -104,3 +104,60 @@ func VerifC02FromMatches(v *vrt.T) {
 	v.Assert(p.Fields()["x"] == interface{}(fv) && p.Tags()["host"] == "h", "input message data not modified")
 	v.Reach("end")
 }
+
+// VerifC02FromWhere: from() with a REAL where() lambda.
+//   A: from().truncate(16ns).where(lambda: unixNano("time") >= T): the predicate sees the
+//      time the point was written with (selection happens before truncate/round, which only
+//      affect the forwarded copy); the forwarded time is the truncated one.
+//   B: from().where(lambda: "v" > 1) on a point that carries v as a field (symbolic int)
+//      and optionally also as a tag: an ambiguous name cannot be evaluated - the point is
+//      not selected and the error is reported; without the tag it is selected iff v > 1.
+func VerifC02FromWhere(v *vrt.T) {
+	_, src := pipeline.VerifNewStreamSource()
+	pn := src.From()
+	variant := v.Choose("variant", 2)
+	const T = verifT2020
+	var lambda string
+	if variant == 0 {
+		pn.Truncate = 16
+		lambda = `unixNano("time") >= 1577836800000000008` // T+8: not on the truncation grid
+	} else {
+		lambda = `"v" > 1`
+	}
+	ln, err := ast.ParseLambda(lambda)
+	v.Assert(err == nil, "lambda parses")
+	pn.Lambda = ln
+	diag := &verifNopDiag{}
+	fn, nerr := newFromNode(nil, pn, diag)
+	v.Assert(nerr == nil && fn != nil, "from node created")
+	if nerr != nil {
+		return
+	}
+	ts := v.Time("ptime", T-40, T+40)
+	fv := int64(v.IntRange("v", -2, 4))
+	tags := models.Tags{"host": "h"}
+	ambiguous := variant == 1 && v.Choose("v is also a tag", 2) == 1
+	if ambiguous {
+		tags["v"] = "x"
+	}
+	p := edge.NewPointMessage("m", "db", "rp", models.Dimensions{}, models.Fields{"v": fv}, tags, ts)
+	out, perr := fn.Point(p)
+	v.Assert(perr == nil, "Point returns no error")
+	var want bool
+	if variant == 0 {
+		want = ts.UnixNano() >= T+8
+	} else {
+		want = !ambiguous && fv > 1
+	}
+	v.Observe("selected", out != nil)
+	v.Assert((out != nil) == want, "the point is forwarded iff the where() predicate holds for the point as written")
+	if ambiguous {
+		v.Assert(diag.errors == 1, "a name that is both a tag and a field is reported, not guessed")
+	}
+	if out != nil && variant == 0 {
+		q := out.(edge.PointMessage)
+		v.Assert(q.Time().UnixNano() == verifTruncRef(ts.UnixNano(), 16), "the forwarded copy carries the truncated time")
+	}
+	v.Assert(p.Time().Equal(ts), "the written point keeps its time")
+	v.Reach("end")
+}
